@@ -251,8 +251,9 @@ func runC15(c *Ctx) {
 					if pn.Name == "_" {
 						continue
 					}
-					assume = append(assume, gf.Or(c.Want(fn, fi.Decl.Body.Lbrace+1, "$1 == nil || $1.Spec.RevisionHistoryLimit == nil", pn), c.Want(fn, fi.Decl.Body.Lbrace+1, "*$1.Spec.RevisionHistoryLimit >= 0", pn)))
-					assume = append(assume, gf.Or(c.Want(fn, fi.Decl.Body.Lbrace+1, "$1 == nil || $1.Spec.Replicas == nil", pn), c.Want(fn, fi.Decl.Body.Lbrace+1, "*$1.Spec.Replicas >= 0", pn)))
+					// (facts about the values, used only where the code reads them; reading through a nil pointer is C15.1's business)
+					assume = append(assume, c.Want(fn, fi.Decl.Body.Lbrace+1, "*$1.Spec.RevisionHistoryLimit >= 0", pn))
+					assume = append(assume, c.Want(fn, fi.Decl.Body.Lbrace+1, "*$1.Spec.Replicas >= 0", pn))
 				}
 			}
 			if len(assume) > 0 {
